@@ -10,6 +10,13 @@ references in Python containers (cycles), dropping references, and
 finalisation by the collector of any unreferenced set of objects at any step
 (`collect S`, accepted only when `collectOk` holds).  Operations the
 implementation rejects leave the state unchanged, so they are covered too.
+
+Destructor and free-function calls are activations with an extent: `release`,
+`withExit`, `finalize` (the collector's `tp_finalize`) and `collect` start one,
+`ret` ends the innermost.  Everything between is issued from inside the
+callback (or by another thread while the first one is inside it): the
+histories the theorems quantify over contain arbitrary operations nested in
+callbacks, to any depth.
 -/
 namespace CffiVerif.C21
 open CffiVerif.Ownership
@@ -219,78 +226,51 @@ theorem free_fn_exactly_once_struct (ops1 ops2 : List Op) (free p sobj raw : Nat
       | some dd => have := g'.1 rfl; omega
       | none => have := g'.2.1 rfl; simp at hn; simp [hn] at this; omega
 
-/-- **`ffi.release()` is idempotent** (in any state, reachable or not): a second
-release changes nothing and calls nothing. -/
-theorem release_idempotent (s : State) (x : Nat) (l : List Nat)
-    (hok : (step s (.release x)).2 = .ok l) :
-    step (step s (.release x)).1 (.release x) = ((step s (.release x)).1, .ok []) := by
-  simp only [step] at hok ⊢
-  unfold release at hok
-  split at hok
-  · simp at hok
-  · rename_i o ho
-    have hoa := ((live_def s x o).mp ho)
-    split at hok
-    · simp at hok
-    · -- owning, not a struct: no effect
-      rename_i hk
-      have e : release s x = (s, .ok []) := by unfold release; simp [ho, hk]
-      rw [e]; exact e
-    · simp at hok
-    · simp at hok
-    · rename_i sid hk
-      split at hok
-      · rename_i os hos
-        have hosa := ((live_def s sid os).mp hos)
-        split at hok
-        · rename_i d orig hks
-          have hne : x ≠ sid := by
-            intro e; subst e; rw [ho] at hos; simp at hos; subst hos; rw [hk] at hks; simp at hks
-          have e : release s x = (s.set sid { finalizeGcp os with released := true },
-              .ok (if fires os then [sid] else [])) := by
-            unfold release; simp [ho, hk, hos, hks]
-          rw [e]
-          have hf : finalizeGcp os = { os with kind := .gcp none none, calls := os.calls + (if d.isSome then 1 else 0) } := by simp [finalizeGcp, hks]
-          have l1 := live_set_other s sid x { finalizeGcp os with released := true } hne
-          have l2 := live_set_self s sid { finalizeGcp os with released := true }
-            (by rw [hf]; exact hosa.2)
-          unfold release
-          simp only [l1, ho, hk, l2]
-          rw [hf]
-          simp only [finalizeGcp, fires, Option.isSome_none, Bool.false_eq_true, if_false, Nat.add_zero]
-          congr 1
-          exact set_self (by simp)
-        · rename_i hnk
-          have e : release s x = (s, .ok []) := by
-            unfold release; simp only [ho, hk, hos]
-            try (split <;> first | rfl | (rename_i d orig hks; exact absurd hks (hnk d orig)))
-          rw [e]; exact e
-      · rename_i hnone
-        have e : release s x = (s, .ok []) := by unfold release; simp [ho, hk, hnone]
-        rw [e]; exact e
-    · rename_i d orig hk
-      have e : release s x = (s.set x { finalizeGcp o with released := true },
-          .ok (if fires o then [x] else [])) := by
-        unfold release; simp [ho, hk]
-      rw [e]
-      have hf : finalizeGcp o = { o with kind := .gcp none none, calls := o.calls + (if d.isSome then 1 else 0) } := by simp [finalizeGcp, hk]
-      have l2 := live_set_self s x { finalizeGcp o with released := true } (by rw [hf]; exact hoa.2)
-      unfold release
-      simp only [l2]
-      rw [hf]
-      simp only [finalizeGcp, fires, Option.isSome_none, Bool.false_eq_true, if_false, Nat.add_zero]
-      congr 1
-      exact set_self (by simp)
-    · rename_i src rel hk
-      by_cases hr : rel = true
-      · have e : release s x = (s, .ok []) := by unfold release; simp [ho, hk, hr]
-        rw [e]; exact e
-      · have e : release s x = (s.set x { o with kind := .frombuf src true, released := true }, .ok []) := by
-          unfold release; simp [ho, hk, hr]
-        rw [e]
-        have l2 := live_set_self s x { o with kind := .frombuf src true, released := true } hoa.2
-        unfold release
-        simp [l2]
+/-- **`ffi.release()` is idempotent, also re-entrantly**: the state after a successful
+`ffi.release(x)` has the wrapper already emptied and marked and — if a destructor was called — that
+call still in progress (no `ret` yet).  A second `ffi.release(x)` / `with x:` issued in that state,
+i.e. from inside the destructor or the free callback, or by another thread while the first one
+is inside it, changes nothing and calls nothing. -/
+theorem release_idempotent (ops : List Op) (x : Nat) (l : List Nat)
+    (hok : (step (run init ops) (.release x)).2 = .ok l) :
+    step (step (run init ops) (.release x)).1 (.release x) = ((step (run init ops) (.release x)).1, .ok []) ∧
+    step (step (run init ops) (.release x)).1 (.withExit x) = ((step (run init ops) (.release x)).1, .ok []) := by
+  have hinv := reachable_inv ops
+  generalize run init ops = s at *
+  have key : opRelease (opRelease s x).1 x = ((opRelease s x).1, .ok []) := by
+    simp only [step] at hok
+    unfold opRelease at hok
+    -- the plain part of the first release succeeded
+    have hok' : ∃ l', (release s x).2 = .ok l' := by
+      cases hr : (release s x).2 with
+      | error e => simp [hr] at hok
+      | ok l' => exact ⟨l', rfl⟩
+    obtain ⟨l', hl'⟩ := hok'
+    have core := release_idem_core s x l' hl'
+    have hx : ∃ ox, s.live x = some ox := by
+      cases hlx : s.live x with
+      | none => simp [release, hlx] at hl'
+      | some ox => exact ⟨ox, rfl⟩
+    obtain ⟨ox, hlx⟩ := hx
+    have hxlt : x < s.next := lt_next hinv (objs_of_live hlx)
+    have second : ∀ pins, opRelease ((release s x).1.pushFrame pins) x = ((release s x).1.pushFrame pins, .ok []) := by
+      intro pins
+      have hc := release_pushFrame (inv_release hinv x) x pins (by rw [release_next]; exact hxlt)
+      rw [core] at hc
+      unfold opRelease
+      rw [hc]
+    have hcase : (∃ pins, (opRelease s x).1 = (release s x).1.pushFrame pins) ∨
+        (opRelease s x).1 = (release s x).1 := by
+      unfold opRelease
+      split
+      · split
+        · exact Or.inl ⟨_, rfl⟩
+        · exact Or.inr rfl
+      · exact Or.inr rfl
+    rcases hcase with ⟨pins, hp⟩ | hp
+    · rw [hp]; exact second pins
+    · rw [hp]; unfold opRelease; rw [core]
+  exact ⟨by simpa only [step] using key, by simpa only [step] using key⟩
 
 /-- **A `from_buffer` cdata keeps its source alive and export-locked** until it is
 released or deallocated: in every reachable state, if `f` is a live cdata with
@@ -342,55 +322,33 @@ theorem frombuf_resize_ok_iff_no_live_view (ops : List Op) (b : Nat) (ob : Obj) 
     simp [hany]
 
 /-- **Releasing a view unlocks**: after `ffi.release(f)` the cdata `f` holds no export. -/
-theorem release_drops_export (s : State) (f b : Nat) (l : List Nat)
-    (hok : (step s (.release f)).2 = .ok l) : exportsOn (step s (.release f)).1 b f = false := by
+theorem release_drops_export (ops : List Op) (f b : Nat) (l : List Nat)
+    (hok : (step (run init ops) (.release f)).2 = .ok l) :
+    exportsOn (step (run init ops) (.release f)).1 b f = false := by
+  have hinv := reachable_inv ops
+  generalize run init ops = s at *
   simp only [step] at hok ⊢
-  cases hl : s.live f with
-  | none => simp [release, hl] at hok
-  | some o =>
-    have hoa := (live_def s f o).mp hl
-    cases hk : o.kind with
-    | py t fl => simp [release, hl, hk] at hok
-    | handle x a => simp [release, hl, hk] at hok
-    | owning st =>
-      cases st
-      · simp [release, hl, hk, exportsOn]
-      · simp [release, hl, hk] at hok
-    | structptr sid =>
-      have hnf : ∀ s' : State, s'.live f = some o → exportsOn s' b f = false := by
-        intro s' h'; simp [exportsOn, h', hk]
-      unfold release
-      simp only [hl, hk]
-      split
-      · rename_i os hos
-        split
-        · rename_i d orig hks
-          have hne : f ≠ sid := by
-            intro e; subst e; rw [hl] at hos; simp at hos; subst hos; rw [hk] at hks; simp at hks
-          exact hnf _ (by rw [live_set_other _ _ _ _ hne]; exact hl)
-        · exact hnf _ hl
-      · exact hnf _ hl
-    | gcp d orig =>
-      have hf : finalizeGcp o = { o with kind := .gcp none none, calls := o.calls + (if d.isSome then 1 else 0) } := by
-        simp [finalizeGcp, hk]
-      have e : release s f = (s.set f { finalizeGcp o with released := true },
-          .ok (if fires o then [f] else [])) := by
-        unfold release; simp [hl, hk]
-      rw [e]
-      have l2 := live_set_self s f { finalizeGcp o with released := true } (by rw [hf]; exact hoa.2)
-      simp only [exportsOn]
-      rw [l2]
-      simp [hf]
-    | frombuf src rel =>
-      cases rel
-      · have e : release s f = (s.set f { o with kind := .frombuf src true, released := true }, .ok []) := by
-          unfold release; simp [hl, hk]
-        rw [e]
-        have l2 := live_set_self s f { o with kind := .frombuf src true, released := true } hoa.2
-        simp only [exportsOn]
-        rw [l2]
-        simp
-      · simp [release, hl, hk, exportsOn]
+  unfold opRelease at hok ⊢
+  have hok' : ∃ l', (release s f).2 = .ok l' := by
+    cases hr : (release s f).2 with
+    | error e => simp [hr] at hok
+    | ok l' => exact ⟨l', rfl⟩
+  obtain ⟨l', hl'⟩ := hok'
+  have core := release_drops_export_core s f b l' hl'
+  split
+  · split
+    · -- a destructor call is in progress: the frame object is a new identity, `f` is unchanged
+      have hx : ∃ ox, s.live f = some ox := by
+        cases hlx : s.live f with
+        | none => simp [release, hlx] at hl'
+        | some ox => exact ⟨ox, rfl⟩
+      obtain ⟨ox, hlx⟩ := hx
+      have hlt : f < (release s f).1.next := by rw [release_next]; exact lt_next hinv (objs_of_live hlx)
+      simp only [exportsOn] at core ⊢
+      rw [live_pushFrame_old _ _ _ (by omega)]
+      exact core
+    · exact core
+  · exact core
 
 /-- **Memory from `ffi.new("struct s *")` stays valid while `p` or `p[0]` is
 alive**: in every reachable state a live struct pointer `p` refers to a live
@@ -469,27 +427,50 @@ theorem from_handle_returns_original (ops1 ops2 : List Op) (x a h : Nat)
 -- ids: 0 = plain cdata, 1 = destructor object, 2 = the gc wrapper
 def exGc : List Op := [.newPlain, .newPy .dtor, .gc 0 1]
 
--- the wrapper in a cycle with its destructor (d.fields = [g]), references dropped, then collected
+-- the wrapper in a cycle with its destructor (d.fields = [g]), references dropped, then collected:
+-- the collector runs tp_finalize (destructor called, activation 3), later deallocates
+def exCyc : List Op := exGc ++ [.store 1 2, .dropRef 2, .dropRef 1, .dropRef 0]
 example : (step (run init [.newPlain, .newPy .dtor]) (.gc 0 1)).2 = .ok [2] := by decide
-example : (run init (exGc ++ [.store 1 2, .dropRef 2, .dropRef 1, .dropRef 0])).calls 2 = 0 := by decide
-example : (step (run init (exGc ++ [.store 1 2, .dropRef 2, .dropRef 1, .dropRef 0])) (.collect [0, 1, 2])).2
-    = .ok [2] := by decide
-example : (run init (exGc ++ [.store 1 2, .dropRef 2, .dropRef 1, .dropRef 0, .collect [0, 1, 2]])).calls 2 = 1 := by
+example : (run init exCyc).calls 2 = 0 := by decide
+example : (step (run init exCyc) (.finalize 2 [0, 1, 2])).2 = .ok [2] := by decide
+-- ... the destructor, still running, releases its own wrapper (it can reach it): nothing happens
+example : (step (run init (exCyc ++ [.finalize 2 [0, 1, 2]])) (.release 2)).2 = .ok [] := by decide
+example : (run init (exCyc ++ [.finalize 2 [0, 1, 2], .release 2, .withExit 2, .ret, .collect [0, 1, 2]])).calls 2 = 1 := by
   decide
+-- nothing of the set can be deallocated while the destructor call is in progress
+example : (step (run init (exCyc ++ [.finalize 2 [0, 1, 2]])) (.collect [0, 1, 2])).2 = .error .Reachable := by decide
+-- deallocation without a finalizer pass (reference counting): the call happens at the deallocation
+example : (step (run init exCyc) (.collect [0, 1, 2])).2 = .ok [2] := by decide
+example : (run init (exCyc ++ [.collect [0, 1, 2], .ret])).calls 2 = 1 := by decide
 -- the collector may not take the wrapper while the program still holds it
 example : (step (run init exGc) (.collect [2])).2 = .error .Reachable := by decide
--- release, then release again, then collection: still one call
-example : (run init (exGc ++ [.release 2, .withExit 2, .dropRef 2, .collect [2]])).calls 2 = 1 := by decide
+-- release; from inside the destructor: release again, with-exit, drop the reference, collect;
+-- return; release again; collection: still one call
+example : (step (run init exGc) (.release 2)).2 = .ok [2] := by decide
+example : (step (run init (exGc ++ [.release 2])) (.release 2)).2 = .ok [] := by decide
+example : (step (run init (exGc ++ [.release 2, .dropRef 2])) (.collect [2])).2 = .error .Reachable := by decide
+example : (run init (exGc ++ [.release 2, .release 2, .withExit 2, .dropRef 2, .ret, .release 2, .collect [2]])).calls 2
+    = 1 := by decide
+-- a destructor that releases another wrapper (ids 3 = second destructor, 4 = second wrapper, 5, 6 = activations)
+example : (run init (exGc ++ [.newPy .dtor, .gc 0 3, .release 2, .release 4, .release 2, .ret, .ret])).calls 4 = 1 := by
+  decide
+example : (run init (exGc ++ [.newPy .dtor, .gc 0 3, .release 2, .release 4, .release 2, .ret, .ret])).calls 2 = 1 := by
+  decide
+example : (step (run init exGc) .ret).2 = .error .NoFrame := by decide
 -- gc(g, None) first: never called
 example : (step (run init exGc) (.gcNone 2)).2 = .ok [] := by decide
 example : (run init (exGc ++ [.gcNone 2, .release 2, .dropRef 2, .collect [2]])).calls 2 = 0 := by decide
 -- allocator: ids 0 = free function, 1 = raw memory, 2 = allocation
 example : (step (run init [.newPy .dtor]) (.allocPlain (some 0))).2 = .ok [2, 1] := by decide
-example : (run init [.newPy .dtor, .allocPlain (some 0), .dropRef 2, .collect [2, 1]]).calls 2 = 1 := by decide
+example : (run init [.newPy .dtor, .allocPlain (some 0), .dropRef 2, .collect [2], .ret, .collect [1]]).calls 2 = 1 := by
+  decide
+-- the free callback does `with arr:` on the allocation being released
+example : (run init [.newPy .dtor, .allocPlain (some 0), .release 2, .withExit 2, .ret, .release 2]).calls 2 = 1 := by
+  decide
 -- allocator("struct s *"): 0 free, 1 raw, 2 struct wrapper, 3 pointer; release(p) frees, collection does not free again
 example : (step (run init [.newPy .dtor]) (.allocStruct (some 0))).2 = .ok [3, 2, 1] := by decide
-example : (run init [.newPy .dtor, .allocStruct (some 0), .release 3, .dropRef 3, .collect [3, 2]]).calls 2 = 1 := by
-  decide
+example : (run init [.newPy .dtor, .allocStruct (some 0), .release 3, .release 3, .ret, .dropRef 3, .collect [3, 2]]).calls 2
+    = 1 := by decide
 -- from_buffer: 0 = bytearray, 1 = view
 example : (step (run init [.newPy .buf, .fromBuffer 0]) (.resize 0)).2 = .error .BufferError := by decide
 example : (step (run init [.newPy .buf, .fromBuffer 0, .release 1]) (.resize 0)).2 = .ok [] := by decide
